@@ -144,7 +144,7 @@ typedef struct _device {
                                 /* network (e.g. tcp/serial)-specific methods */
     bool (*connect)(struct _device *dev);
     bool (*finish_connect)(struct _device *dev);
-    void (*preprocess)(struct _device *dev);
+    void (*preprocess)(struct _device *dev, int len); /* len new bytes in from */
     void (*disconnect)(struct _device *dev);
     void (*destroy)(void *data);
 
